@@ -43,6 +43,18 @@ macro_rules! e2e_read {
     };
 }
 
+/// the value actually written by `e2e_write!` (unary-prefixed codes are masked so that the codeword fits the
+/// 32 bytes of memory): the round trip must return THIS value
+#[inline(always)]
+fn eff(sel: u8, v: u64) -> u64 {
+    match sel {
+        5 => v & 0xfff,
+        7 => v & 0xff,
+        0..=4 | 6 | 8 | 9 => v,
+        _ => v & 0x7f,
+    }
+}
+
 fn dom(sel: u8, v: u64, vbits: u32) -> bool {
     let lim = if vbits >= 64 { u64::MAX - 1 } else { (1u64 << vbits) - 1 };
     match sel {
@@ -109,7 +121,7 @@ macro_rules! e2e_bodies {
             let mut r = BufBitReader::<$e, _>::new(MemWordReader::new(&rw[..nr]));
             assert_eq!(r.read_bits(off).unwrap(), prefix, "prefix read back");
             let back = e2e_read!(r, SEL, k).unwrap();
-            assert_eq!(back, v, "round trip through the real writer and the real reader");
+            assert_eq!(back, eff(SEL, v), "round trip through the real writer and the real reader");
             assert_eq!(r.bit_pos().unwrap(), (off + wl) as u64, "reader sits at the end of the codeword");
             assert_eq!(r.read_bits(16).unwrap(), sentinel, "following bits intact");
             crate::cover!(s, off % 8 != 0 && wl > 16, "unaligned, longer than two bytes");
@@ -154,7 +166,7 @@ macro_rules! e2e_bodies {
             let mut r = BitReader::<$e, _>::new(MemWordReader::new(&rw[..]));
             assert_eq!(r.read_bits(off).unwrap(), prefix, "prefix read back");
             let back = e2e_read!(r, SEL, k).unwrap();
-            assert_eq!(back, v, "round trip through the real writer and the real unbuffered reader");
+            assert_eq!(back, eff(SEL, v), "round trip through the real writer and the real unbuffered reader");
             assert_eq!(r.bit_pos().unwrap(), (off + wl) as u64, "reader sits at the end of the codeword");
             assert_eq!(r.read_bits(16).unwrap(), sentinel, "following bits intact");
             crate::cover!(s, off % 8 != 0 && wl > 16, "unaligned, longer than two bytes");
